@@ -20,12 +20,16 @@ import (
 
 // user identifier classes (length 0 selects the default identifier; 8192 cannot be
 // represented in ENTL and must be refused)
-var uidClasses = []string{"0", "16", "1", "default-explicit", "rand", "8191", "0", "16", "8192", "rand"}
+var uidClasses = []string{"0", "16", "1", "default-explicit", "rand", "8191", "0-nonnil", "16", "8192", "rand", "0-spare"}
 
 func pickUID(r *mon.Rand, class string) []byte {
 	switch class {
 	case "0":
 		return nil
+	case "0-nonnil": // zero length but not nil: the same "default identifier" request as nil
+		return []byte{}
+	case "0-spare":
+		return r.Bytes(24)[:0]
 	case "1":
 		return r.Bytes(1)
 	case "16":
@@ -116,6 +120,18 @@ func complete(x *mon.Ctx) {
 			continue
 		}
 		completeCase(c, i, how, dk, uc, plant, s0)
+		c.End()
+	}
+	// honest signatures with prescribed (r, s): leading zero octets, sign-octet and limb boundaries in the values
+	// the library has to encode
+	lz := leadingZeroScalars()
+	for i := 0; i < x.Scale(3*len(lz), 12*len(lz)); i++ {
+		form := []string{"r", "s", "both"}[i%3]
+		c := x.Begin("complete constructed i=%d prescribed=%s value=%s (k, other value, signer from the case PRNG)", i, form, lz[(i/3)%len(lz)].name)
+		if c == nil {
+			continue
+		}
+		constructedCase(c, i, form, lz[(i/3)%len(lz)].v, lz[(i/3)%len(lz)].name)
 		c.End()
 	}
 	// real certificates: the signature inside is one more honest signature
@@ -372,5 +388,124 @@ func certCase(c *mon.Case, i int) {
 	judge(c, "certificate signature", in, cert.Signature)
 	if c.Call("CheckSignatureFrom", func() { err = cert.CheckSignatureFrom(cert) }) && err != nil {
 		c.Fail("reject", "CheckSignatureFrom refuses the self-signed certificate: %v", err)
+	}
+}
+
+// leadingZeroScalars: the structured values of edge.go plus every count of leading zero octets (2^(8j) and
+// 2^(8j)-1, 2^(8j-1)) a 32-byte integer can have.
+func leadingZeroScalars() []struct {
+	name string
+	v    *big.Int
+} {
+	out := structuredScalars()
+	for j := uint(1); j < 32; j++ {
+		out = append(out, struct {
+			name string
+			v    *big.Int
+		}{fmt.Sprintf("2^%d", 8*j), new(big.Int).Lsh(one, 8*j)},
+			struct {
+				name string
+				v    *big.Int
+			}{fmt.Sprintf("2^%d-1", 8*j), sub(new(big.Int).Lsh(one, 8*j), one)},
+			struct {
+				name string
+				v    *big.Int
+			}{fmt.Sprintf("2^%d+r", 8*j-1), nil}) // nil: 2^(8j-1) + random lower bits, drawn per case
+	}
+	return out
+}
+
+// constructedCase makes the standard's signing procedure output a prescribed pair: with the scripted ephemeral
+// scalar k, r = e + x1(k) and s = (1+d)^-1 (k - r d) (mod n); choosing the digest e = r - x1 and the private
+// key d = (k - s)(s + r)^-1 yields exactly (r, s). The honest signature must satisfy the reference (strict DER,
+// equation) and be accepted by every entry point.
+func constructedCase(c *mon.Case, i int, form string, v *big.Int, vname string) {
+	if v == nil {
+		var bits uint
+		fmt.Sscanf(vname, "2^%d+r", &bits)
+		v = add(new(big.Int).Lsh(one, bits), c.R.BigBelow(new(big.Int).Lsh(one, bits)))
+	}
+	pick := func() *big.Int { return randScalar(c.R) }
+	var r, s, k, d *big.Int
+	for try := 0; ; try++ {
+		if try == 8 {
+			c.Trivial()
+			c.Event("constructed_no_valid_key_found", 1)
+			return
+		}
+		r, s = pick(), pick()
+		switch form {
+		case "r":
+			r = v
+		case "s":
+			s = v
+		default:
+			r = v
+			s = leadingZeroScalars()[c.R.Intn(31)].v
+		}
+		k = pick()
+		sr := modn(add(s, r))
+		if sr.Sign() == 0 || modn(add(r, k)).Sign() == 0 {
+			continue
+		}
+		d = modn(mul(sub(k, s), invn(sr)))
+		if d.Sign() > 0 && d.Cmp(nm1) < 0 {
+			break
+		}
+	}
+	x1 := ec.BaseMul(k).X
+	e := ec.Bytes32(modn(sub(r, x1)))
+	how := keyHows[i%len(keyHows)]
+	if how == "GenerateKey" {
+		how = "NewPrivateKey" // the key is prescribed
+	}
+	key := mkKey(c, how, d)
+	if key == nil {
+		return
+	}
+	// self-check of the construction with the reference signer
+	if r0, s0, err := sm2sig.Sign(d, k, sm2sig.DigestToInt(e)); err != nil || r0.Cmp(r) != 0 || s0.Cmp(s) != 0 {
+		c.Inconclusive("construction of a signature with prescribed (r,s) failed in the reference: %v", err)
+		return
+	}
+	c.Class("constructed/%s/rlen=%d/slen=%d", form, (r.BitLen()+7)/8, (s.BitLen()+7)/8)
+	in := vin{k: key, e: e}
+	for j := 0; j < 2; j++ {
+		var sg signer
+		for {
+			sg = signers[c.R.Intn(len(signers))]
+			if !sg.msgMode {
+				break
+			}
+		}
+		rd := newScript(c, ec.Bytes32(k))
+		var sig []byte
+		var serr error
+		if !c.Call(sg.name, func() { sig, serr = sg.run(rd, key, nil, nil, e) }) {
+			continue
+		}
+		c.Event("sign_calls", 1)
+		if rd.Budget {
+			c.Fail("hang", "unbounded retry: %s consumed more than %d random bytes", sg.name, retryBudget)
+			continue
+		}
+		if serr != nil {
+			c.Fail("reject", "%s failed with a valid key (d=%x) and a working random source: %v", sg.name, d, serr)
+			continue
+		}
+		c.Event("signatures", 1)
+		if bytes.Equal(sig, sm2sig.EncodeDER(r, s)) {
+			c.Event("constructed_signature_has_the_prescribed_r_s", 1)
+		}
+		if want := refVerdict(in, sig); want != sm2sig.Accept {
+			c.Detail("signature", sig)
+			c.Detail("digest", e)
+			c.Detail("d", d.Text(16))
+			c.Detail("k", k.Text(16))
+			c.Fail("mismatch", "honest signature of %s fails the reference (%s): sig=%x digest=%x d=%x; the standard's procedure with the scripted k gives r=%x s=%x", sg.name, want, sig, e, d, r, s)
+			continue
+		}
+		c.Event("honest_signatures_accepted_by_reference", 1)
+		judge(c, "honest signature of "+sg.name+" with prescribed "+form, in, sig)
 	}
 }
